@@ -231,7 +231,58 @@ def prop_additive(sh, case):
     return fails
 
 
-PARTS = {'matrix': prop_select, 'random': prop_select, 'additive': prop_additive}
+
+# ------------------------------------------------------------------ the same on Beancount-backed tables
+
+_SCHEMA = {}
+
+
+def ledger_schema():
+    if not _SCHEMA:
+        from vlib import ledgermodel, ledgers
+        conn = ledgers.connect(ledgers.SAMPLE)
+        entries, _, _ = ledgers.load(ledgers.SAMPLE)
+        for name, t in ledgermodel.model_tables(conn, entries).items():
+            _SCHEMA[name] = t['cols']
+    return _SCHEMA
+
+
+@st.composite
+def ledger_case(draw):
+    from vlib import ledgergen
+    desc = draw(ledgergen.ledgers(max_txns=6, many_extras=True))
+    schema = ledger_schema()
+    name = draw(st.sampled_from(['postings', 'entries', 'transactions', 'transactions', 'prices', 'notes', 'notes', 'events', 'events', 'documents', 'documents']))
+    pseudo = {'name': name, 'cols': schema[name]}
+    if draw(st.booleans()):
+        sel = draw(gen.agg_selects(pseudo, order=False))
+    else:
+        sel = draw(gen.plain_selects(pseudo, order=False))
+    if not False:
+        sel['limit'] = None
+    return {'text': ledgergen.render(desc), 'table': name, 'sel': harness.force_aliases(sel), 'via_ast': True}
+
+
+def prop_ledger(sh, case):
+    from vlib import ledgermodel, ledgers
+    entries, errors, options = ledgers.load(case['text'])
+    conn = ledgers.connect_entries(entries, options)
+    tabs = ledgermodel.model_tables(conn, entries)
+    c = dict(case, tables=[], text=bql.statement(case['sel']))
+    fails, info = harness.compare_select(c, conn=conn, model_tabs=tabs)
+    if 'undef' in info:
+        sh.count('oracle_undefined')
+        sh.record(None, False)
+        return fails
+    nrows = len(tabs[case['table']]['rows'])
+    nontrivial = nrows >= 3 and len(info.get('want', ())) >= 2
+    sh.count('ledger:' + case['table'])
+    sh.record(jsonio.case_hash([case['sel'], case['table'], case['text']]), nontrivial,
+              {'text': c['text'], 'table_rows': nrows, 'result': repr(info.get('want'))[:200]} if nontrivial else None)
+    return [(f'ledger:{s}', d) for s, d in fails]
+
+
+PARTS = {'ledger': prop_ledger, 'matrix': prop_select, 'random': prop_select, 'additive': prop_additive}
 
 
 def run(sh):
@@ -240,3 +291,4 @@ def run(sh):
             sh.fail(sig, detail, case, 'matrix')
     sh.search('random', random_case(), prop_select, quick=6000, thorough=150000)
     sh.search('additive', additive_case(), prop_additive, quick=2000, thorough=50000)
+    sh.search('ledger', ledger_case(), prop_ledger, quick=1600, thorough=50000)
